@@ -18,6 +18,7 @@ import (
 	"go/types"
 	"regexp"
 	"sort"
+	"strconv"
 	"strings"
 
 	"golang.org/x/tools/go/ssa"
@@ -1229,6 +1230,16 @@ func (ev *symEval) evalValue(fr *symFrame, st *symState, v ssa.Value) SV {
 		return evalBinTyped(x.Op, ev.val(fr, x.X), ev.val(fr, x.Y), x.X.Type(), x.Type())
 	case *ssa.Convert:
 		a := ev.val(fr, x.X)
+		if tb, ok := x.Type().Underlying().(*types.Basic); ok && a.Known {
+			switch {
+			case a.K == "float" && tb.Info()&types.IsInteger != 0:
+				if f, ok := floatOf(a); ok {
+					return symInt(int64(f)) // truncation toward zero
+				}
+			case a.K == "int" && tb.Info()&types.IsFloat != 0:
+				return symFloat(float64(a.N))
+			}
+		}
 		if a.K == "int" {
 			return a
 		}
@@ -1613,7 +1624,53 @@ func evalBinTyped(op token.Token, a, b SV, operand, result types.Type) SV {
 	return r
 }
 
+// floatOf: a known number as float64 (values of kind "float" keep their text in Desc).
+func floatOf(v SV) (float64, bool) {
+	switch {
+	case v.K == "int" && v.Known:
+		return float64(v.N), true
+	case v.K == "float" && v.Known:
+		f, err := strconv.ParseFloat(v.Desc, 64)
+		return f, err == nil
+	}
+	return 0, false
+}
+
+func symFloat(f float64) SV {
+	return SV{K: "float", Known: true, Desc: strconv.FormatFloat(f, 'g', -1, 64)}
+}
+
 func evalBin(op token.Token, a, b SV) SV {
+	if (a.K == "float" || b.K == "float") && a.Known && b.Known {
+		if x, ok1 := floatOf(a); ok1 {
+			if y, ok2 := floatOf(b); ok2 {
+				switch op {
+				case token.ADD:
+					return symFloat(x + y)
+				case token.SUB:
+					return symFloat(x - y)
+				case token.MUL:
+					return symFloat(x * y)
+				case token.QUO:
+					if y != 0 {
+						return symFloat(x / y)
+					}
+				case token.EQL:
+					return symBool(x == y)
+				case token.NEQ:
+					return symBool(x != y)
+				case token.LSS:
+					return symBool(x < y)
+				case token.LEQ:
+					return symBool(x <= y)
+				case token.GTR:
+					return symBool(x > y)
+				case token.GEQ:
+					return symBool(x >= y)
+				}
+			}
+		}
+	}
 	if a.K == "int" && b.K == "int" && a.Known && b.Known {
 		switch op {
 		case token.ADD:
